@@ -7,58 +7,88 @@ import DarsiaModel.SolveLoop
 namespace Darsia.SolveLoop
 
 /-- all passes before `i` completed -/
-def AllOkBefore (env : Nat → Event) (i : Nat) : Prop := ∀ j, j < i → ∃ b, env j = .ok b
+def AllOkBefore (env : Nat → Event) (i : Nat) : Prop := ∀ j, j < i → ∃ br b, env j = .ok br b
 
 /-- invariant of the repaired loop at loop index `i` -/
 structure Good (env : Nat → Event) (i : Nat) (s : LoopState) : Prop where
   consistent : s.distTag = some s.solTag
   running : s.stopped = false → s.flag = false ∧ AllOkBefore env i
   flagged : s.flag = true →
-    ∃ i0, i0 < i ∧ 1 < i0 ∧ env i0 = .ok true ∧ s.iter = some i0 ∧ AllOkBefore env i0
+    ∃ i0 br, i0 < i ∧ 1 < i0 ∧ env i0 = .ok br true ∧ s.iter = some i0 ∧ AllOkBefore env i0
 
 theorem Good.mono {env : Nat → Event} {i i' : Nat} {s : LoopState} (h : Good env i s)
     (hs : s.stopped = true) (hi : i ≤ i') : Good env i' s := by
   refine ⟨h.consistent, ?_, ?_⟩
   · intro h'; rw [hs] at h'; cases h'
   · intro hf
-    obtain ⟨i0, h0, rest⟩ := h.flagged hf
-    exact ⟨i0, Nat.lt_of_lt_of_le h0 hi, rest⟩
+    obtain ⟨i0, br, h0, rest⟩ := h.flagged hf
+    exact ⟨i0, br, Nat.lt_of_lt_of_le h0 hi, rest⟩
 
 variable {c : LoopCode}
 
 theorem sound_fields (hc : c.sound = true) :
-    c.restoreSol = true ∧ c.restoreDist = true ∧ c.flagOnBreak = true ∧ c.distInit = true ∧ c.iterInit = true := by
+    c.restoreSol = true ∧ c.restoreDist = true ∧ c.flagOnBreak = true ∧ c.distInit = true ∧ c.iterInit = true ∧
+      c.saveIsCopy = true := by
   unfold LoopCode.sound at hc
   simp only [Bool.and_eq_true] at hc
-  obtain ⟨⟨⟨⟨h1, h2⟩, h3⟩, h4⟩, h5⟩ := hc
-  exact ⟨h1, h2, h3, h4, h5⟩
+  obtain ⟨⟨⟨⟨⟨⟨⟨h1, h2⟩, h3⟩, h4⟩, h5⟩, h6⟩, _⟩, _⟩ := hc
+  exact ⟨h1, h2, h3, h4, h5, h6⟩
+
+/-- every body of sound code (also the one an out-of-range branch number selects) writes the iterate and evaluates the
+distance after the last write -/
+theorem sound_body (hc : c.sound = true) (b : Nat) : bodyOk (c.body b) = true := by
+  unfold LoopCode.sound at hc
+  simp only [Bool.and_eq_true, List.all_eq_true, Bool.not_eq_true', List.isEmpty_eq_false_iff] at hc
+  obtain ⟨⟨_, hne⟩, hall⟩ := hc
+  apply hall
+  unfold LoopCode.body
+  cases hb : c.bodies with
+  | nil => exact absurd hb hne
+  | cons x xs =>
+    rw [List.getD_eq_getElem?_getD]
+    cases hg : (x :: xs)[b]? with
+    | none => simp
+    | some y => simpa using List.mem_of_getElem? hg
+
+/-- a completed pass of sound code ends with iterate `i+1` and its distance -/
+theorem step_ok (hc : c.sound = true) (s : LoopState) (i b : Nat) (met : Bool) :
+    step c s i (.ok b met) =
+      if 1 < i ∧ met = true then
+        { s with iter := some i, solTag := i + 1, distTag := some (i + 1), flag := true, stopped := true }
+      else { s with iter := some i, solTag := i + 1, distTag := some (i + 1) } := by
+  have hb := sound_body hc b
+  unfold bodyOk at hb
+  simp only [Bool.and_eq_true, Bool.not_eq_true'] at hb
+  obtain ⟨⟨h1, h2⟩, h3⟩ := hb
+  simp only [step, h1, h2, h3, if_true, Bool.not_false, Bool.and_self]
 
 /-- a fault at any statement of any body: the handler of sound code leaves iterate and distance untouched -/
 theorem step_fail (hc : c.sound = true) (s : LoopState) (i b a : Nat) :
     step c s i (.fail b a) = { s with iter := some i, stopped := true } := by
-  obtain ⟨h1, h2, _, _, _⟩ := sound_fields hc
-  simp [step, h1, h2]
+  obtain ⟨h1, h2, _, _, _, h6⟩ := sound_fields hc
+  simp [step, h1, h2, h6]
 
 theorem good_step (hc : c.sound = true) {env : Nat → Event} {i : Nat} {s : LoopState} (h : Good env i s)
     (hs : s.stopped = false) : Good env (i + 1) (step c s i (env i)) := by
   obtain ⟨hflag, hall⟩ := h.running hs
   have hc0 := h.consistent
-  have hall' : ∀ b, env i = .ok b → AllOkBefore env (i + 1) := fun b hb j hj => by
+  have hall' : ∀ br b, env i = .ok br b → AllOkBefore env (i + 1) := fun br b hb j hj => by
     rcases Nat.lt_succ_iff_lt_or_eq.1 hj with hlt | rfl
     · exact hall j hlt
-    · exact ⟨b, hb⟩
+    · exact ⟨br, b, hb⟩
   cases he : env i with
-  | ok met =>
+  | ok br met =>
+    rw [step_ok hc]
     by_cases hm : 1 < i ∧ met = true
-    · simp only [step, hm, and_self, if_true]
+    · simp only [hm, and_self, if_true]
       refine ⟨rfl, ?_, ?_⟩
       · intro h'; cases h'
       · intro _
-        refine ⟨i, Nat.lt_succ_self i, hm.1, ?_, rfl, hall⟩
+        refine ⟨i, br, Nat.lt_succ_self i, hm.1, ?_, rfl, hall⟩
         rw [he, hm.2]
-    · simp only [step, hm, if_false]
+    · simp only [hm, if_false]
       refine ⟨rfl, ?_, ?_⟩
-      · intro _; exact ⟨hflag, hall' met he⟩
+      · intro _; exact ⟨hflag, hall' br met he⟩
       · intro hf; simp only [hflag] at hf; cases hf
   | nan =>
     simp only [step]
@@ -85,7 +115,7 @@ theorem good_runFrom (hc : c.sound = true) {env : Nat → Event} : ∀ (fuel i :
       exact this
 
 theorem good_init (hc : c.sound = true) (env : Nat → Event) : Good env 0 (init c) := by
-  obtain ⟨_, _, _, h4, h5⟩ := sound_fields hc
+  obtain ⟨_, _, _, h4, h5, _⟩ := sound_fields hc
   refine ⟨by simp [init, h4], ?_, ?_⟩
   · intro _; exact ⟨by simp [init], fun j hj => absurd hj (Nat.not_lt_zero j)⟩
   · intro hf; simp [init] at hf
@@ -97,7 +127,7 @@ theorem good_run (hc : c.sound = true) (env : Nat → Event) (n : Nat) : Good en
 
 /-- a fault that is reached: every earlier pass completes without triggering the criteria `break` -/
 def Reaches (env : Nat → Event) (j : Nat) : Prop :=
-  ∀ l, l < j → ∃ b, env l = .ok b ∧ ¬(1 < l ∧ b = true)
+  ∀ l, l < j → ∃ br b, env l = .ok br b ∧ ¬(1 < l ∧ b = true)
 
 /-- running up to a reached fault at index `j`: the loop stops there, holding iterate `j` -/
 theorem runFrom_fault (hc : c.sound = true) {env : Nat → Event} {j : Nat} (hr : Reaches env j)
@@ -116,13 +146,13 @@ theorem runFrom_fault (hc : c.sound = true) {env : Nat → Event} {j : Nat} (hr 
     unfold runFrom
     simp only [hs]
     rcases Nat.lt_or_eq_of_le hij with hlt | rfl
-    · obtain ⟨b, hb, hnb⟩ := hr i hlt
-      have hstep : step c s i (env i) = { s with iter := some i, distTag := some (i + 1), solTag := i + 1 } := by
-        rw [hb]; simp only [step]; rw [if_neg hnb]
+    · obtain ⟨br, b, hb, hnb⟩ := hr i hlt
+      have hstep : step c s i (env i) = { s with iter := some i, solTag := i + 1, distTag := some (i + 1) } := by
+        rw [hb, step_ok hc, if_neg hnb]
       rw [hstep]
       exact runFrom_fault hc hr hf fuel (i + 1) _ hs (by omega) (by omega) rfl rfl hflag
     · cases he : env i with
-      | ok m => rw [he] at hf; cases hf
+      | ok br m => rw [he] at hf; cases hf
       | nan => rw [he] at hf; cases hf
       | fail b a =>
         simp only [Bool.false_eq_true, if_false]
